@@ -909,7 +909,7 @@ func (in *inliner) rewriteStmt(st ast.Stmt, fd *ast.FuncDecl, file *ast.File, c 
 		// `if a && h(x) {T} else {E}`  =>  `if a { if h(x) {T} else {E} } else {E}`  (and the mirror image for ||): the
 		// helper is called under exactly the same condition, and its call becomes the whole condition of an `if`
 		if be, ok := s.Cond.(*ast.BinaryExpr); ok && s.Init == nil && (be.Op == token.LAND || be.Op == token.LOR) &&
-			in.containsCallTo(be.Y, c) != nil && in.containsCallTo(be.X, c) == nil {
+			(in.containsCallTo(be.Y, c) != nil) != (in.containsCallTo(be.X, c) != nil) {
 			dupOK := func(n ast.Node) bool {
 				return n == nil || reflect.ValueOf(n).IsNil() || !containsFuncLit(n) && !containsLabel(n)
 			}
